@@ -14,6 +14,13 @@ commit; read everything; close/open; read everything, where nothing is read
 between the open and op1, so that op1 is the first operation that resolves its
 column family in the session (KvStore.tla: cfmap / touched, invariants
 ResultsIgnoreTouched and OwnFamilyOnly, mutation switch MisTag).
+A serialization buffer is a sequence: specs/KvStoreGen.tla (BOSpec,
+KvStoreGenBO.cfg) enumerates every buffer with two or three conflicting
+operations on one cell (one buffer with other cells / columns in between, two
+buffers consumed in both orders, direct and buffered operations mixed);
+replayed with padded buffers (0 / 12 / 30 writes to columns outside the model
+before, after and around the model's operations); KvStore.tla: BufOrder
+mutation switch, invariant BufferIsSequence.
 """
 import json
 import os
@@ -154,6 +161,64 @@ def first_touch_mutation():
                            f"{r['invariant_violated']}\n{r['out'][-2000:]}")
     res["KvStoreMutFirstTouchDep.cfg"] = {"ResultsIgnoreTouched_violated": True, "distinct": r["distinct"]}
     return res
+
+
+def buffer_order_mutation():
+    """'A serialization buffer is a sequence' is not vacuous in the reference: when consume appends
+    the operations of a buffer in an arbitrary order, or grouped by column with an arbitrary order
+    inside a column, TLC finds a wrong read (and the mechanism invariant fails at the consume)."""
+    res = {}
+    for cfg, inv in (("KvStoreMutBufOrder_any.cfg", "ReadsLastCommitted"), ("KvStoreMutBufOrder_bycol.cfg", "ReadsLastCommitted"),
+                     ("KvStoreMutBufOrderMech.cfg", "BufferIsSequence")):
+        r = vp.tlc("KvStore", cfg=cfg, workers=2, timeout=600, check_ok=False)
+        if inv not in r["invariant_violated"] or not re.search(r"State \d+: <Consume", r["out"]):
+            raise vp.ToolError(f"{cfg}: expected {inv} violated through a Consume, TLC says {r['invariant_violated']}\n"
+                               f"{r['out'][-2000:]}")
+        res[cfg] = {inv + "_violated": True, "trace_len": len(re.findall(r"^State \d+: <", r["out"], re.M)) + 1,
+                    "distinct": r["distinct"]}
+    return res
+
+
+# padding of the buffers of the buffer-order family: (writes per buffered model operation, where)
+BO_PADS_ALL = [(0, "before"), (12, "before"), (12, "after"), (12, "both"), (30, "before"), (30, "after"), (30, "both")]
+BO_POS = ["before", "after", "both"]
+
+
+def generate_bo(wd, tier):
+    """Exhaustive enumeration of the buffer-order behaviours, multiplied by the padding variants.
+    Returns (cases path, behaviours, case lines, TLC result, shape statistics)."""
+    r = vp.tlc("KvStoreGen", cfg="KvStoreGenBO.cfg", env={"NK": "2", "NV": "1", "NE": "1", "STEPS": "0", "BO_MAXOPS": "3"},
+               workers=1, timeout=900, check_ok=False)
+    if not r["ok"]:
+        raise vp.ToolError("KvStoreGen/BOSpec: TLC did not complete without error:\n" + r["out"][-3000:])
+    raw = os.path.join(wd, "cases_buforder_model.ndjson")
+    n = _cases_from_tlc(r["out"], raw)
+    if n == 0:
+        raise vp.ToolError("KvStoreGen/BOSpec produced no behaviours:\n" + r["out"][-3000:])
+    st = {"behaviours": n, "shape": {}, "target": {}, "prefix": {}, "conflicting_ops_on_target_cell": {},
+          "with_other_cell_or_column_between": 0, "padding": {}}
+    path = os.path.join(wd, "cases_buforder.ndjson")
+    lines = 0
+    with open(path, "w") as f:
+        for i, line in enumerate(open(raw)):
+            c = json.loads(line)
+            h = c["events"][0]
+            for k, v in (("shape", h["shape"] + (str(h["arr"]) if h["arr"] else "")), ("target", h["tgt"]), ("prefix", h["prefix"])):
+                st[k][v] = st[k].get(v, 0) + 1
+            nt = sum(1 for e in c["events"] if e.get("role") == "t")
+            st["conflicting_ops_on_target_cell"][str(nt)] = st["conflicting_ops_on_target_cell"].get(str(nt), 0) + 1
+            st["with_other_cell_or_column_between"] += any(e.get("role") in ("fs", "fo") for e in c["events"])
+            if tier == "thorough":
+                pads = BO_PADS_ALL
+            else:
+                # every behaviour without padding, with 12 and with 30; the position rotates
+                pads = [(0, "before"), (12, BO_POS[i % 3]), (30, BO_POS[(i + 1) % 3])]
+            for pad, pos in pads:
+                c["pad"], c["padpos"] = pad, pos
+                f.write(json.dumps(c) + "\n")
+                lines += 1
+                st["padding"][f"{pad}/{pos}"] = st["padding"].get(f"{pad}/{pos}", 0) + 1
+    return path, n, lines, r, st
 
 
 def _cases_from_tlc(out, path):
@@ -329,9 +394,9 @@ def classify(results, cases_path, verdict, status, stats):
                     stats["kf_samples"].setdefault(kid, {"fam": res["fam"], "backend": "fjall", "case": res["case"],
                                                          "finding": f, "behaviour": cases[res["case"]]})
                     continue
-            ft = bool(cases[res["case"]].get("ft"))
-            # the first-touch behaviours are replayed under every family with the same abstract content
-            key = ("firsttouch" if ft else res["fam"], res["backend"], f.get("read"),
+            ft = cases[res["case"]].get("ft") or cases[res["case"]].get("bo")
+            # the first-touch / buffer-order behaviours are replayed under every family with the same abstract content
+            key = ("enumerated" if ft else res["fam"], res["backend"], f.get("read"),
                    json.dumps(f.get("cell", f.get("set"))))
             if key in stats["viol_seen"] or len(stats["viol_seen"]) >= MAX_VIOLATION_FILES:
                 stats["viol_dups"] += 1
@@ -411,21 +476,24 @@ def run_replays(bd, wd, tmp, plan, seed, verdict, status, stats, threads=8, shar
         classify(results, cases, verdict, status, stats)
 
 
-def run_ft_replays(bd, wd, tmp, cases_path, per_case, seed, verdict, status, stats, procs=8):
+def run_ft_replays(bd, wd, tmp, cases_path, per_case, seed, verdict, status, stats, procs=8, tag="ft", pad=True):
     """The first-touch behaviours on every backend, in `procs` single-threaded
     kv_replay processes over disjoint slices (RocksDB opens do not scale over
     the threads of one process: the address-space lock is the bottleneck)."""
-    lines = padded([l for l in open(cases_path) if l.strip()])
-    stats["behaviours_with_padded_buffers"] = stats.get("behaviours_with_padded_buffers", 0) + sum(1 for l in lines if '"pad"' in l)
+    lines = [l for l in open(cases_path) if l.strip()]
+    if pad:
+        lines = padded(lines)
+    stats["behaviours_with_padded_buffers"] = stats.get("behaviours_with_padded_buffers", 0) + \
+        sum(1 for l in lines if '"pad"' in l and '"pad": 0' not in l)
     jobs = []
     for n in range(procs):
         part = lines[n::procs]
         if not part:
             continue
-        cases = os.path.join(wd, f"cases_ft{n}.ndjson")
+        cases = os.path.join(wd, f"cases_{tag}{n}.ndjson")
         with open(cases, "w") as f:
             f.writelines(part)
-        out = os.path.join(wd, f"result_ft{n}.ndjson")
+        out = os.path.join(wd, f"result_{tag}{n}.ndjson")
         args = [os.path.join(bd, "kv_replay"), "--cases", cases, "--out", out, "--fams", "all", "--per-case", str(per_case),
                 "--seed", str(seed + 1000 + n), "--threads", "1", "--tmp", tmp, "--watchdog", "60"]
         jobs.append([n, cases, out, args, None])
@@ -454,7 +522,7 @@ def run_ft_replays(bd, wd, tmp, cases_path, per_case, seed, verdict, status, sta
             raise vp.ToolError(f"kv_replay wrote no summary for {cases}")
         before = stats["runs"]
         classify(results, cases, verdict, status, stats)
-        stats["ft_runs"] += stats["runs"] - before
+        stats[tag + "_runs"] += stats["runs"] - before
 
 
 def atomic_probe(bd, tmp, verdict, status, stats, batches, fillers):
@@ -479,7 +547,7 @@ def atomic_probe(bd, tmp, verdict, status, stats, batches, fillers):
 
 def new_stats():
     return {"runs": 0, "reads_compared": 0, "model_drift": {}, "drift_samples": {}, "kf_samples": {},
-            "viol_seen": set(), "viol_dups": 0, "atomic_probe": None, "harness_process_deaths": [], "ft_runs": 0}
+            "viol_seen": set(), "viol_dups": 0, "atomic_probe": None, "harness_process_deaths": [], "ft_runs": 0, "bo_runs": 0}
 
 
 # --------------------------------------------------------------------------
@@ -511,11 +579,12 @@ def run(tier, seed):
             per_case, ft_per_case = 0, 2
 
         def lane_reference():
-            return model_check(coverage=not quick), asis_switches(), first_touch_mutation()
+            return model_check(coverage=not quick), asis_switches(), first_touch_mutation(), buffer_order_mutation()
 
         def lane_generators():
             plan, gen_states, nbeh, sample_cases = [], 0, 0, []
             ft = generate_ft(wd, tier)
+            bo = generate_bo(wd, tier)
             for i, (name, nk, nv, ne, steps, num) in enumerate(gens):
                 path, n, st = generate(wd, name, seed * 100 + i, nk, nv, ne, steps, num)
                 gen_states += st
@@ -523,14 +592,15 @@ def run(tier, seed):
                 plan.append((name, path, per_case))
                 if i < 2:
                     sample_cases.append(json.loads(open(path).readline()))
-            return plan, gen_states, nbeh, sample_cases, ft
+            return plan, gen_states, nbeh, sample_cases, ft, bo
 
         phases = {"build_s": round(time.time() - t0, 1)}
         t_ph = time.time()
         with ThreadPoolExecutor(max_workers=2) as ex:
             f_ref, f_gen = ex.submit(lane_reference), ex.submit(lane_generators)
-            mc, asis, ftmut = f_ref.result()
-            plan, gen_states, nbeh, sample_cases, (ft_path, ft_n, ft_tlc, ft_shape) = f_gen.result()
+            mc, asis, ftmut, bomut = f_ref.result()
+            plan, gen_states, nbeh, sample_cases, (ft_path, ft_n, ft_tlc, ft_shape), \
+                (bo_path, bo_n, bo_lines, bo_tlc, bo_shape) = f_gen.result()
         if ft_shape["read_between_open_and_op1"] or ft_shape["op1_is_first_touch_of_its_column"] + \
                 ft_shape["late_consume"] != ft_n:
             raise vp.ToolError(f"first-touch family is not what it claims to be: {ft_shape}")
@@ -540,10 +610,12 @@ def run(tier, seed):
         ft_tmp = tempfile.mkdtemp(prefix="vh-c11-ft-", dir="/dev/shm") if os.access("/dev/shm", os.W_OK) else tmp
         try:
             run_ft_replays(bd, wd, ft_tmp, ft_path, ft_per_case, seed, verdict, status, stats)
+            ft_wall = time.time() - t_ft
+            run_ft_replays(bd, wd, ft_tmp, bo_path, ft_per_case, seed + 7, verdict, status, stats, tag="bo", pad=False)
+            bo_wall = time.time() - t_ft - ft_wall
         finally:
             if ft_tmp != tmp:
                 shutil.rmtree(ft_tmp, ignore_errors=True)
-        ft_wall = time.time() - t_ft
         t_ph = time.time()
         run_replays(bd, wd, tmp, plan, seed, verdict, status, stats)
         phases["random_walk_replay_s"] = round(time.time() - t_ph, 1)
@@ -551,14 +623,15 @@ def run(tier, seed):
         atomic_probe(bd, tmp, verdict, status, stats, 100 if quick else 600, 2000)
         phases["atomic_probe_s"] = round(time.time() - t_ph, 1)
         phases["first_touch_replay_s"] = round(ft_wall, 1)
+        phases["buffer_order_replay_s"] = round(bo_wall, 1)
         vp.log(f"[C11] phases {json.dumps(phases)}")
     finally:
         shutil.rmtree(tmp, ignore_errors=True)
     rc = verdict.finish()
     layout = [json.loads(l) for l in kv_replay(bd, "--mode", "layout").splitlines() if l.startswith("{")]
     coverage = {
-        "states": mc["states"] + ft_tlc["distinct"],
-        "transitions": mc["transitions"] + ft_tlc["generated"],
+        "states": mc["states"] + ft_tlc["distinct"] + bo_tlc["distinct"],
+        "transitions": mc["transitions"] + ft_tlc["generated"] + bo_tlc["generated"],
         "traces_validated_against_impl": stats["runs"],
         "samples": [{"tlc_behaviour": {**c, "events": c["events"][:14]}} for c in sample_cases] +
                    [{"first_touch_behaviour": json.loads(l)} for l in open(ft_path).readlines()[-1:]] +
@@ -568,6 +641,20 @@ def run(tier, seed):
         "asis_switches": asis,
         "phase_wall_s": phases,
         "behaviours_from_tlc_simulation": nbeh,
+        "buffer_order_family": {
+            "what": "KvStoreGen.tla BOSpec / KvStoreGenBO.cfg, breadth-first: [prefix; commit; read everything;] 2-3 conflicting "
+                    "operations on one cell in one buffer (other cell / column in between), in two buffers consumed in both "
+                    "orders, or direct + buffered; commit; read everything; close/open; read everything - replayed with "
+                    "padded buffers (writes per buffered model operation / position)",
+            "tlc": {"distinct": bo_tlc["distinct"], "generated": bo_tlc["generated"], "depth": bo_tlc["depth"],
+                    "wall_s": round(bo_tlc["wall_s"], 1)},
+            "shape": bo_shape,
+            "behaviour_x_padding": bo_lines,
+            "families_per_behaviour": ft_per_case,
+            "runs_behaviour_x_family_x_backend": stats["bo_runs"],
+            "replay_wall_s": round(bo_wall, 1),
+            "model_mutation_BufOrder": bomut,
+        },
         "first_touch_family": {
             "what": "KvStoreGen.tla FTSpec / KvStoreGenFT.cfg, breadth-first: [prefix; close/open;] op1; [op2]; commit; "
                     "read everything; close/open; read everything - no read between the open and op1",
@@ -771,6 +858,37 @@ def selftest(seed):
         rejected = {r["backend"] for r in map(json.loads, open(out)) if not r.get("summary")
                     and any(f["kind"] == "violation" and f["at"] == "read everything" for f in r["findings"])}
         print(f"first touch, corrupted final read-everything: rejected on {sorted(rejected)}")
+        ok &= rejected == set(BACKENDS)
+        # (3b) a serialization buffer is a sequence: mutations of the model, padded behaviours accepted,
+        # a corrupted expectation rejected
+        print("buffer-order mutations in the model:", json.dumps(buffer_order_mutation()))
+        bo_path, bo_n, bo_lines, bo_tlc, bo_shape = generate_bo(wd, "thorough")
+        print(f"buffer-order family: {bo_n} behaviours x {len(BO_PADS_ALL)} paddings, TLC {bo_tlc['distinct']} states; "
+              f"shape {json.dumps(bo_shape)}")
+        bo_cases = [json.loads(l) for l in open(bo_path)][5::131]
+        p = os.path.join(wd, "bo_good.ndjson")
+        with open(p, "w") as f:
+            for c in bo_cases:
+                f.write(json.dumps(c) + "\n")
+        out = os.path.join(wd, "bo_good.result")
+        kv_replay(bd, "--cases", p, "--out", out, "--fams", "int,bytes", "--tmp", tmp)
+        res = [json.loads(l) for l in open(out)]
+        bad = [r for r in res if not r.get("summary") and any(f["kind"] == "violation" for f in r["findings"])]
+        print(f"buffer order, unmodified: {len(bo_cases)} padded behaviours x 2 families x 3 backends, findings: {len(bad)}")
+        ok &= not bad
+        mutated = next(json.loads(json.dumps(c)) for c in bo_cases if c["pad"] == 30 and c["final"]["wide"])
+        for e in mutated["events"]:
+            if e["a"] == "sweep":
+                last = e
+        last["state"]["wide"][0]["val"] = 3 - last["state"]["wide"][0]["val"]
+        p = os.path.join(wd, "bo_bad.ndjson")
+        with open(p, "w") as f:
+            f.write(json.dumps(mutated) + "\n")
+        out = os.path.join(wd, "bo_bad.result")
+        kv_replay(bd, "--cases", p, "--out", out, "--fams", "int", "--tmp", tmp)
+        rejected = {r["backend"] for r in map(json.loads, open(out)) if not r.get("summary")
+                    and any(f["kind"] == "violation" for f in r["findings"])}
+        print(f"buffer order, corrupted final read-everything: rejected on {sorted(rejected)}")
         ok &= rejected == set(BACKENDS)
         # (4) informational: the minimal witnesses of the known findings
         for kid, fam, case, what in WITNESSES:
